@@ -103,6 +103,8 @@ def run(ctx):
     ctx.run_rule("R1-dispatch", r1_dispatch, F, table)
     ctx.run_rule("R2-R3", r2_r3, F, table)
     ctx.run_rule("R4-arc-forward", r4_arc, F)
+    ctx.run_rule("R9-name-decoding", r9_names, F)
+    ctx.run_rule("R10-zc-adapters", zc_adapters, F, "R10-zc-adapters")
     ctx.run_rule("R6-context", r6_context, F)
     ctx.run_rule("R7-oversize-gate", r7_oversize, F)
     ctx.run_rule("R8-arg-conversions", r8_conversions, F)
@@ -232,9 +234,9 @@ def r2_r3(ctx, F, table):
     ctx.floor("R3-arg-provenance", 150)
 
 
-def r4_arc(ctx, F):
+def r4_arc(ctx, F, only=None):
     """impl FileSystem for Arc<FS>: every trait method is overridden and forwards to the same-named
-    method of the inner object with its own parameters in order."""
+    method of the inner object with its own parameters in order. (`only`: restrict to these method names, used by C14.)"""
     tr = F.traits.get(common.FS_TRAIT)
     if tr is None:
         raise core.Anchor(common.FS_TRAIT)
@@ -246,6 +248,8 @@ def r4_arc(ctx, F):
         if m["kind"] != "Fn":
             continue
         n = m["name"]
+        if only is not None and n not in only:
+            continue
         if not ctx.check("R5-arc-override", n, n in have,
                          "Arc<FS> does not override FileSystem::%s: the default body answers instead of the wrapped filesystem" % n,
                          loc="%s:%s" % (impl[0]["file"], impl[0]["line"])):
@@ -269,8 +273,64 @@ def r4_arc(ctx, F):
         r = v.ret()
         ctx.check("R4-arc-forward", n + "/ret", r[0] == "C" and r[4] == (b.key, fc[0].bb),
                   "Arc<FS>::%s does not return the inner call's result" % n, loc=b.loc())
-    ctx.floor("R4-arc-forward", 150)
-    ctx.floor("R5-arc-override", 45)
+    if only is None:
+        ctx.floor("R4-arc-forward", 150)
+        ctx.floor("R5-arc-override", 45)
+    else:
+        ctx.floor("R5-arc-override", len(only))
+
+
+ZC_CALLEE = {"read_to": "read_to_at", "write_from": "write_from_at"}
+
+
+def zc_adapters(ctx, F, rule):
+    """ZcReader / ZcWriter (what a filesystem's read/write sees of the request and reply buffers) are pure adapters: one call on
+    the wrapped reader/writer with the caller's count and offset unchanged (shared with C18: the sealing test is made on
+    WriteIn.size, so the adapter must not move more than the count it is given)."""
+    n = 0
+    for k, b in sorted(F.fns.items()):
+        if not (b.self_adt or "").startswith("api::server::Zc") or b.kind != "assoc" or "async" in k:
+            continue
+        ctx.fn_seen(b)
+        v = vf.VF(b, inline_depth=0)
+        cs = [c for c in b.calls() if c.bb in b.reachable() and not b.is_cleanup(c.bb)]
+        tag = "%s::%s" % (b.self_adt.rsplit("::", 1)[-1], b.name)
+        ok = len(cs) == 1 and cs[0].name == ZC_CALLEE.get(b.name, b.name)
+        if ok:
+            a = v.call_args(cs[0])
+            ok = a[0] == ("F", ("P", 1), "0") and list(a[1:]) == [("P", i) for i in range(2, b.argc + 1)]
+            r = v.ret()
+            ok = ok and r[0] == "C" and r[4] == (b.key, cs[0].bb)
+        n += 1
+        ctx.check(rule, tag, ok, "%s is not exactly `self.0.%s(<its own arguments>)`: %s" % (tag, ZC_CALLEE.get(b.name, b.name),
+                  [(c.name, [vf.render(x, b, short=True)[:60] for x in v.call_args(c)]) for c in cs][:3]), loc=b.loc())
+    ctx.check(rule, "adapters", n >= 6, "only %d adapter methods found" % n)
+
+
+def r9_names(ctx, F):
+    """The two name decoders: a name ends at the first NUL (inclusive slice 0..=pos); the second of two names starts right
+    after it and is accepted whenever at least one byte follows (an empty second name `\\0` is a name the filesystem must see)."""
+    rule = "R9-name-decoding"
+    POS = "some(Iter::position(impl [T]::iter(buf), closure({closure#0})))"
+    FIRST = "CStr::from_bytes_with_nul(Index::index(buf, RangeInclusive::new(0, %s)))" % POS
+    b = F.fn("bytes_to_cstr")
+    ctx.fn_seen(b)
+    v = vf.VF(b, inline_depth=0)
+    r = vf.render(v.ret(), b, short=True, vfx=v)
+    ctx.check(rule, "bytes_to_cstr/first-nul", "==1 => Result::map_err(%s, " % FIRST in r, "bytes_to_cstr does not cut the name at the first NUL byte (inclusive): %s" % r[:300], loc=b.loc())
+    e = F.method("api::server::ServerUtil", "extract_two_cstrs")
+    ctx.fn_seen(e)
+    ev = vf.VF(e, inline_depth=0)
+    r = vf.render(ev.ret(), e, short=True, vfx=ev)
+    second = "bytes_to_cstr(Index::index(buf, RangeFrom{start: Add(1, %s)}))" % POS
+    ctx.check(rule, "two/result", "Ok((%s?, %s?))" % (FIRST, second) in r,
+              "extract_two_cstrs does not return (buf[0..=pos], bytes_to_cstr(buf[pos+1..])): %s" % r[:400], loc=e.loc())
+    ctx.check(rule, "two/accepts-any-second", vf.fact("Lt(Add(1, %s), impl [T]::len(buf))" % POS) in r and "Lt(Add(2" not in r and "Le(Add(" not in r,
+              "extract_two_cstrs must accept a second name whenever pos + 1 < len (one byte, the NUL of an empty name, is enough): %s" % r[:300], loc=e.loc())
+    for fn in (b, e):
+        cl = F.closures_of(fn.key)
+        t = [vf.render(vf.VF(c, inline_depth=0).ret(), c, short=True) for c in cl]
+        ctx.check(rule, fn.name + "/searches-nul", any(x in ("Eq(0, x)", "Eq(x, 0)", "Eq(0, *x)", "Eq(*x, 0)") for x in t), "%s no longer searches for the byte 0 (%s)" % (fn.name, t), loc=fn.loc())
 
 
 def r6_context(ctx, F):
